@@ -213,6 +213,61 @@ pub fn run_stats_rt(
             }
         }
     }
+    // --- drift: two neighbouring entries of a stored list change places (every list of scalars whose first two
+    // entries differ): the statistic is the list as written, order included
+    {
+        fn lists(v: &Value, path: &mut Vec<String>, out: &mut Vec<Vec<String>>) {
+            match v {
+                Value::Object(m) => {
+                    for (k, x) in m {
+                        path.push(k.clone());
+                        lists(x, path, out);
+                        path.pop();
+                    }
+                }
+                Value::Array(a) => {
+                    if a.len() >= 2 && a.iter().all(|x| x.is_number() || x.is_string()) && a[0] != a[1] {
+                        out.push(path.clone());
+                    }
+                }
+                _ => {}
+            }
+        }
+        let mut lp = Vec::new();
+        lists(&doc, &mut Vec::new(), &mut lp);
+        for path in lp {
+            // (message lists are compared as sets of lines by design of the messages' order key: left to the leaves)
+            if path.iter().any(|p| p == "reported_errors" || p == "custom_checks_stats_errors") {
+                continue;
+            }
+            let mut d = doc.clone();
+            if let Some(Value::Array(a)) = get_mut(&mut d, &path) {
+                a.swap(0, 1);
+            }
+            let Some(text) = render(&d, &ext) else { continue };
+            let mut c = bb.clone();
+            c.input_stats = Some(text);
+            let rc = ex.exec(&c);
+            ex.fault("stored_list_entries_swapped");
+            if let Some(f) = check_orderly(&rc) {
+                out.fail = Some(f);
+                return out;
+            }
+            if !mismatch_reported(&rc) || rc.status != exit_code {
+                out.fail = fail(
+                    &format!("list-order-drift-not-reported:{}", path.join(".")),
+                    format!(
+                        "the first two entries of {} changed places in the stored file: mismatch reported = {}, status {} (expected {exit_code}) [cmd: {}]",
+                        path.join("."),
+                        mismatch_reported(&rc),
+                        rc.status,
+                        c.cmdline()
+                    ),
+                );
+                return out;
+            }
+        }
+    }
     // --- drift: every leaf of the stored file, one at a time (stored-state corruption)
     let mut paths = Vec::new();
     leaves(&doc, &mut Vec::new(), &mut paths);
